@@ -756,78 +756,6 @@ theorem lead_paren : ∀ (e : SE), e.ok = true → e.isParen = false → ∀ tl,
         refine ⟨y, r' ++ op.ch :: b.render, ?_, by simp, hpc⟩
         rw [← h2, hy]; simp
 
-theorem stripLoop_render : ∀ (e : SE), e.ok = true → ∀ fuel, e.render.length < fuel →
-    stripLoop fuel e.render = .ok e.core.render := by
-  intro e
-  induction e with
-  | paren x ih =>
-    intro h fuel hf
-    obtain ⟨k, rfl⟩ : ∃ k, fuel = k + 1 := ⟨fuel - 1, by omega⟩
-    have hp := render_pclosed x h
-    show stripLoop (k+1) ('(' :: (x.render ++ [')'])) = _
-    rw [stripLoop, hp [')'] 1 1 (Nat.le_refl _)]
-    have : scanClose [')'] (1 + x.render.length) 1 = (some (1 + x.render.length), 0) := by
-      simp [scanClose]
-    rw [this]
-    have hlen : 1 + x.render.length + 1 = ('(' :: (x.render ++ [')'])).length := by
-      simp only [List.length_cons, List.length_append, List.length_nil]; omega
-    simp only [hlen, if_true]
-    have : (x.render ++ [')']).dropLast = x.render := by simp
-    rw [this]
-    refine ih h k ?_
-    simp only [SE.render, List.length_cons, List.length_append, List.length_nil] at hf
-    omega
-  | atom s => exact fun h => stripLoop_nonparen (.atom s) h rfl
-  | fn f x _ => exact fun h => stripLoop_nonparen (.fn f x) h rfl
-  | neg x _ => exact fun h => stripLoop_nonparen (.neg x) h rfl
-  | bin op a b _ _ => exact fun h => stripLoop_nonparen (.bin op a b) h rfl
-where
-  stripLoop_nonparen (e : SE) (h : e.ok = true) (hnp : e.isParen = false) :
-      ∀ fuel, e.render.length < fuel → stripLoop fuel e.render = .ok e.core.render := by
-    intro fuel hf
-    obtain ⟨k, rfl⟩ : ∃ k, fuel = k + 1 := ⟨fuel - 1, by omega⟩
-    have hcore : e.core = e := by
-      cases e with
-      | paren _ => cases hnp
-      | atom _ => rfl
-      | fn _ _ => rfl
-      | neg _ => rfl
-      | bin _ _ _ => rfl
-    rw [hcore]
-    have hne := render_ne_nil e h
-    cases hr : e.render with
-    | nil => exact absurd hr hne
-    | cons c tl =>
-      rw [stripLoop]
-      by_cases hc : c = '('
-      · subst hc
-        obtain ⟨y, r', hy, hr', hpc⟩ := lead_paren e h hnp tl hr
-        rw [hy, hpc _ 1 1 (Nat.le_refl _)]
-        have : scanClose (')' :: r') (1 + y.length) 1 = (some (1 + y.length), 0) := by
-          simp [scanClose]
-        rw [this]
-        have hlen : ¬ (1 + y.length + 1 = ('(' :: (y ++ ')' :: r')).length) := by
-          simp only [List.length_cons, List.length_append]
-          have : 0 < r'.length := by
-            cases r' with
-            | nil => exact absurd rfl hr'
-            | cons _ _ => simp
-          omega
-        simp only [hlen, if_false]
-      · have hc2 : c ≠ ')' := by
-          have := render_head_ne_close e h
-          rw [hr] at this
-          simpa using this
-        have hp := render_pclosed e h
-        rw [hr] at hp
-        have h1 := hp [] 0 1 (Nat.le_refl _)
-        simp only [List.append_nil] at h1
-        have h0 : scanClose (c :: tl) 0 1 = scanClose tl 1 1 := by
-          rw [scanClose]; simp [hc, hc2]
-        rw [h0] at h1
-        rw [h1]
-        simp [scanClose]
-
 /-- if the text starts with `(`, the next character is not `)` -/
 theorem render_second_ne_close : ∀ (e : SE), e.ok = true → ∀ rest, e.render = '(' :: rest →
     rest.head? ≠ some ')' := by
@@ -878,6 +806,92 @@ theorem render_second_ne_close : ∀ (e : SE), e.ok = true → ∀ rest, e.rende
         have : op.ch ≠ ')' := by cases op <;> decide
         simpa using this
       | cons d atl' => simpa using this
+
+/-- one pass of the bracket loop over `(y)rest` where `y` is closed, not empty and does not start with
+`)`: the brackets are stripped if nothing follows, the loop ends otherwise -/
+theorem stripLoop_paren (fuel : Nat) (y rest : List Char) (hne : y ≠ []) (hh : y.head? ≠ some ')')
+    (hp : PClosed y) :
+    stripLoop (fuel+1) ('(' :: (y ++ ')' :: rest)) =
+      if rest = [] then stripLoop fuel y else .ok ('(' :: (y ++ ')' :: rest)) := by
+  cases y with
+  | nil => exact absurd rfl hne
+  | cons c tl =>
+    have hc : ¬ c = ')' := by simpa using hh
+    show stripLoop (fuel+1) ('(' :: c :: (tl ++ ')' :: rest)) = _
+    rw [stripLoop, if_neg (not_not_intro rfl), if_neg hc]
+    have hs : scanClose (c :: (tl ++ ')' :: rest)) 1 1 = (some (1 + (c :: tl).length), 0) := by
+      have := hp (')' :: rest) 1 1 (Nat.le_refl _)
+      rw [List.cons_append] at this
+      rw [this]
+      simp [scanClose]
+    rw [hs]
+    dsimp only
+    by_cases hr : rest = []
+    · subst hr
+      have hlen : 1 + (c :: tl).length + 1 = ('(' :: c :: (tl ++ [')'])).length := by
+        simp only [List.length_cons, List.length_append, List.length_nil]; omega
+      have hd : (c :: (tl ++ [')'])).dropLast = c :: tl := by
+        have : c :: (tl ++ [')']) = (c :: tl) ++ [')'] := rfl
+        rw [this, List.dropLast_concat]
+      rw [if_pos hlen, if_pos rfl, hd]
+    · have hlen : ¬ (1 + (c :: tl).length + 1 = ('(' :: c :: (tl ++ ')' :: rest)).length) := by
+        simp only [List.length_cons, List.length_append]
+        have : 0 < rest.length := by
+          cases rest with
+          | nil => exact absurd rfl hr
+          | cons _ _ => simp
+        omega
+      rw [if_neg hlen, if_neg hr]
+      rfl
+
+theorem stripLoop_render : ∀ (e : SE), e.ok = true → ∀ fuel, e.render.length < fuel →
+    stripLoop fuel e.render = .ok e.core.render := by
+  intro e
+  induction e with
+  | paren x ih =>
+    intro h fuel hf
+    obtain ⟨k, rfl⟩ : ∃ k, fuel = k + 1 := ⟨fuel - 1, by omega⟩
+    show stripLoop (k+1) ('(' :: (x.render ++ [')'])) = _
+    rw [stripLoop_paren k x.render [] (render_ne_nil x h) (render_head_ne_close x h)
+      (render_pclosed x h), if_pos rfl]
+    refine ih h k ?_
+    simp only [SE.render, List.length_cons, List.length_append, List.length_nil] at hf
+    omega
+  | atom s => exact fun h => stripLoop_nonparen (.atom s) h rfl
+  | fn f x _ => exact fun h => stripLoop_nonparen (.fn f x) h rfl
+  | neg x _ => exact fun h => stripLoop_nonparen (.neg x) h rfl
+  | bin op a b _ _ => exact fun h => stripLoop_nonparen (.bin op a b) h rfl
+where
+  stripLoop_nonparen (e : SE) (h : e.ok = true) (hnp : e.isParen = false) :
+      ∀ fuel, e.render.length < fuel → stripLoop fuel e.render = .ok e.core.render := by
+    intro fuel hf
+    obtain ⟨k, rfl⟩ : ∃ k, fuel = k + 1 := ⟨fuel - 1, by omega⟩
+    have hcore : e.core = e := by
+      cases e with
+      | paren _ => cases hnp
+      | atom _ => rfl
+      | fn _ _ => rfl
+      | neg _ => rfl
+      | bin _ _ _ => rfl
+    rw [hcore]
+    have hne := render_ne_nil e h
+    cases hr : e.render with
+    | nil => exact absurd hr hne
+    | cons c tl =>
+      by_cases hc : c = '('
+      · subst hc
+        obtain ⟨y, r', hy, hr', hpc⟩ := lead_paren e h hnp tl hr
+        have h2 := render_second_ne_close e h tl hr
+        have hyne : y ≠ [] := by
+          intro h0; subst h0; rw [hy] at h2; simp at h2
+        have hyh : y.head? ≠ some ')' := by
+          cases y with
+          | nil => exact absurd rfl hyne
+          | cons d ytl => rw [hy] at h2; simpa using h2
+        rw [hy, stripLoop_paren k y r' hyne hyh hpc, if_neg hr']
+      · cases tl with
+        | nil => simp [stripLoop]
+        | cons c1 tl' => rw [stripLoop, if_pos hc]
 
 theorem stripBrackets_render (e : SE) (h : e.ok = true) :
     stripBrackets e.render = .ok e.core.render := by
